@@ -5,7 +5,7 @@
 set -e
 tier=${1:-quick}
 D=$(mktemp -d /tmp/verif-cov.XXXXXX)
-trap 'rm -rf "$D"' EXIT
+trap '[ -n "$KEEP" ] || rm -rf "$D"' EXIT
 git clone -q /repo "$D/repo"
 (cd /repo && git diff) | (cd "$D/repo" && git apply --allow-empty 2>/dev/null || true)
 mkdir -p "$D/verif" "$D/cov"
@@ -19,13 +19,13 @@ s=open('check').read()
 a='["go", "build", "-tags", "verif", "-o"'
 b='["go", "build", "-o"'
 assert a in s and b in s
-s=s.replace(a,'["go", "build", "-cover", "-coverpkg=github.com/taskctl/taskctl/...", "-tags", "verif", "-o"')
+s=s.replace(a,'["go", "build", "-cover", "-coverpkg=github.com/taskctl/taskctl/...,verifharness", "-tags", "verif", "-o"')
 s=s.replace(b,'["go", "build", "-cover", "-coverpkg=github.com/taskctl/taskctl/...", "-o"')
 open('check','w').write(s)
 PY
 export VERIF_REPO="$D/repo" GOCOVERDIR="$D/cov" VERIF_EVIDENCE_DIR="$D/ev"
 mkdir -p "$D/ev"
-for i in $(seq -w 1 20); do ./check C$i $tier 2>&1 | grep "^check\|VIOLATION" || true; done
+for i in ${COV_PROPS:-$(seq -w 1 20)}; do ./check C$i $tier 2>&1 | grep "^check\|VIOLATION" || true; done
 export GOFLAGS=-mod=mod GOPROXY=off GOSUMDB=off GOTOOLCHAIN=local
 (cd "$D/repo" && go tool covdata textfmt -i="$D/cov" -o "$D/cov.txt")
 python3 /verif/tools/cov_report.py "$D/cov.txt" "$D/repo" > /verif/.build/coverage-$tier.txt
